@@ -22,7 +22,7 @@ from pyoak.origin import NO_ORIGIN
 
 from .. import zoo
 from ..core import Rec
-from ..explore import explore
+from ..explore import explore, judged_step
 
 PID = "C03"
 ENGINE = "E2"
@@ -755,5 +755,5 @@ def replay(case, cfg):
     for op in hist[:-1]:
         if m.apply(w, op, None, None) != "ok":
             return []
-    m.apply(w, hist[-1], rec, tuple(hist[:-1]))
+    judged_step(m, w, hist[-1], rec, tuple(hist[:-1]), cfg)
     return rec.result()["violations"]
